@@ -128,6 +128,9 @@ def judge_wsgi_sse(o, n_items, raise_at, consume):
         p.append(f"user generator left in state {o['gen_state']}")
     data = []
     for item in o["got"]:
+        if not isinstance(item, bytes):
+            p.append(f"response iterable yielded {type(item).__name__} {item!r:.40}, not bytes")
+            continue
         if item == b": ping\n\n":
             continue
         m = re.fullmatch(rb"data: (\d+)\n\n", item)
